@@ -5,6 +5,7 @@ import numpy as np
 
 from .common import all_close, quiet
 from .common import guarded
+from skgstat import Variogram
 from . import vario, c01
 
 INFO = dict(
@@ -187,7 +188,40 @@ def check_base(ctx, case):
         c01.check_case(ctx, dict(case, coords=coords[perm].tolist(), values=values[perm].tolist()))   # keeps the dtype
 
 
+@guarded
+def check_big(ctx, binf=None):
+    """a data set large enough (> 50 000 pairs) for size-dependent code paths of the clustering binnings: reordering the
+    points leaves edges, counts and semivariances unchanged"""
+    rng = ctx.rng
+    n = int(rng.integers(320, 345))
+    coords = rng.uniform(0, 100, size=(n, 2))
+    values = np.sin(coords[:, 0] / 17.0) * 3 + rng.normal(0, 0.5, size=n)
+    binf = binf or str(rng.choice(['kmeans', 'ward', 'uniform']))
+    kw = dict(n_lags=int(rng.integers(5, 10)), bin_func=binf, estimator='matheron', maxlag=None, fit_method=None)
+    if binf == 'ward':
+        kw['maxlag'] = 0.35        # keeps the agglomerative clustering affordable
+    perm = rng.permutation(n)
+    case = dict(coords=coords.tolist(), values=values.tolist(), kw=kw, big=True, perm=perm.tolist())
+    try:
+        with quiet():
+            A = Variogram(coords, values, **kw)
+            a = (np.asarray(A.bins, float), np.asarray(A.bin_count), np.asarray(A.experimental, float))
+            B = Variogram(coords[perm], values[perm], **kw)
+            b = (np.asarray(B.bins, float), np.asarray(B.bin_count), np.asarray(B.experimental, float))
+    except ValueError as e:
+        ctx.reject('big:' + str(e)[:40])
+        return
+    ctx.count('big_permutation:' + binf)
+    ctx.case(signature=('big', binf, tuple(a[1].tolist())), stream='metamorphic-large')
+    if not (all_close(a[0], b[0], rel=1e-9) and a[1].tolist() == b[1].tolist() and all_close(a[2], b[2], rel=1e-9)):
+        ctx.violation('invariance-permute', '%d points, bin_func=%s: reordering the points changes edges %r -> %r, counts %r -> %r'
+                      % (n, binf, a[0].tolist(), b[0].tolist(), a[1].tolist(), b[1].tolist()), case,
+                      signature=dict(kind='metamorphic', transform='permute-large', bin_func=binf))
+
+
 def run(ctx):
+    for k in range(ctx.n(1, 6)):
+        check_big(ctx, 'kmeans' if k == 0 else None)
     for k in range(ctx.n(70, 1500)):
         case = vario.gen_case(ctx.rng, nmax=32 if ctx.tier == 'quick' else 55, allow_custom=False,
                               metrics=['euclidean'], dims=(2, 2, 3, 1),
